@@ -82,7 +82,7 @@ func malformedAllStream(cfg *Config) *hx.Stats {
 	accepted := 0
 	obsHuge := 0
 	var tryT func(id atree.SlabID, b []byte, what string, limit time.Duration)
-	try := func(id atree.SlabID, b []byte, what string) { tryT(id, b, what, 2*time.Second) }
+	try := func(id atree.SlabID, b []byte, what string) { tryT(id, b, what, 5*time.Second) }
 	tryT = func(id atree.SlabID, b []byte, what string, limit time.Duration) {
 		done := make(chan string, 1)
 		go func() {
@@ -131,10 +131,10 @@ func malformedAllStream(cfg *Config) *hx.Stats {
 				viol(fmt.Sprintf("%s of register %s (%d bytes: %x): %s", what, hx.IDStr(id), len(b), b, r))
 			}
 		case <-time.After(limit):
-			if limit < 60*time.Second {
+			if limit < 120*time.Second {
 				// a loaded machine can starve the goroutine for seconds: only a call that does not
 				// return within a minute either is reported as a hang
-				tryT(id, b, what, 60*time.Second)
+				tryT(id, b, what, 120*time.Second)
 				return
 			}
 			viol(fmt.Sprintf("%s of register %s: decoding does not return within 60 s (%x)", what, hx.IDStr(id), b))
